@@ -154,6 +154,10 @@ type Aaa interface {
 }
 `
 
+// decoyStyleInterface is the decoy with the two interface-level notations the plain one leaves out (they change
+// signatures and switch name matching off, which the families that look at bodies do not want on their neighbour).
+var decoyStyleInterface = strings.Replace(decoyInterface, "// :convergen\n", "// :convergen\n// :style arg\n// :match none\n", 1)
+
 func familyFName(thorough bool) []*scen.Cell {
 	var cells []*scen.Cell
 	for _, v := range fnameVariants {
@@ -600,6 +604,9 @@ func familyF4(thorough bool) []*scen.Cell {
 			})
 			add(&scen.Cell{ID: fmt.Sprintf("f4gen_%d_%d", i, err), Family: "F4-conv-generated", Files: map[string]string{"setup.go": setup},
 				Meta: f4Meta{Kind: "conv", Line: ":conv " + name + " P R", Err: err, Extra: om.Sig}})
+			// round 5 (C03-m9): the same file behind an interface that sorts first and sets :style arg and :match none for ITS methods
+			add(&scen.Cell{ID: fmt.Sprintf("f4gendecoy_%d_%d", i, err), Family: "F4-conv-generated", Files: map[string]string{"setup.go": setup + "\n" + decoyStyleInterface},
+				Meta: f4Meta{Kind: "conv", Line: ":conv " + name + " P R", Err: err, Extra: om.Sig + " behind a decoy interface"}})
 		}
 	}
 	// ---- :skip dims: pattern, case, style, competing
